@@ -266,8 +266,10 @@ RICH_RETS = dict(gen.DEFAULT_PROFILE, rets=['acc', 'const', 'const', 'const'])
 
 
 def check_C01(tier): return run_hist_prop('C01', tier, 1, 700, 40000)
-def check_C02(tier): return run_hist_prop('C02', tier, 2, 700, 40000, p_fail=0.5)
-def check_C03(tier): return run_hist_prop('C03', tier, 3, 700, 40000, p_fail=0.3, p_clean=0.2)
+def check_C02(tier):
+    return run_hist_prop('C02', tier, 2, 700, 40000, p_fail=0.5, families=gen.SCENARIOS + [gen.scen_cache_subdir])
+def check_C03(tier):
+    return run_hist_prop('C03', tier, 3, 700, 40000, p_fail=0.3, p_clean=0.2, families=gen.SCENARIOS + [gen.scen_cache_subdir])
 def check_C04(tier): return run_hist_prop('C04', tier, 4, 500, 20000, prof=QUERY_DENSE)
 def check_C05(tier): return run_hist_prop('C05', tier, 5, 700, 40000, p_fail=0.05, p_clean=0.03, min_builds=3, max_builds=6)
 
@@ -299,7 +301,8 @@ def check_C10(tier):
                          per_family=(80, 2000), p_fail=0.1)
 
 
-def check_C12(tier): return run_hist_prop('C12', tier, 12, 700, 40000, p_clean=0.4)
+def check_C12(tier):
+    return run_hist_prop('C12', tier, 12, 700, 40000, p_clean=0.4, families=gen.SCENARIOS + [gen.scen_cache_subdir])
 
 
 def c13_cases(tier, ds):
@@ -313,7 +316,7 @@ def c13_cases(tier, ds):
 
 
 def check_C13(tier):
-    return run_hist_prop('C13', tier, 13, 200, 10000, families=[gen.scen_reads], per_family=(150, 4000),
+    return run_hist_prop('C13', tier, 13, 200, 10000, families=[gen.scen_reads, gen.scen_stamped], per_family=(150, 4000),
                          extra_cases=c13_cases, prof=dict(gen.DEFAULT_PROFILE, p_hash=0.5))
 
 
